@@ -1265,3 +1265,73 @@ Proof.
   - apply gd_terms_veq; now apply normed_veq_lists.
   - apply gd_terms_perm; [apply Permutation_refl | now apply Permutation_map].
 Qed.
+
+(* ---------- concrete instances (non-vacuity) ---------- *)
+Definition ex16_ref : list isol := [ISol 100 [0;2] 0; ISol 101 [4;0] 0; ISol 102 [2;1] 0; ISol 103 [9;9] 1].
+Definition ex16_set : list isol := [ISol 0 [1;1] 0; ISol 102 [2;1] 0; ISol 1 [5;-1#1] 0; ISol 2 [0;0] (1#2)].
+
+Definition xval_is (r : res xval) (q : Q) : bool := match r with Ok (XFin v) => Qeq_bool v q | _ => false end.
+Fixpoint qlist_is (a b : list Q) : bool :=
+  match a, b with [], [] => true | x :: a', y :: b' => Qeq_bool x y && qlist_is a' b' | _, _ => false end.
+Definition terms_are (r : res ingredients) (ts : list Q) (n : nat) : bool :=
+  match r with Ok (ITerms l m) => qlist_is l ts && Nat.eqb m n | _ => false end.
+
+(* two objectives (max, min); the reference set has an infeasible member that must not move
+   the bounds [0,4]x[0,2]; the set shares object 102 with the reference set, has a member
+   outside the bounds and an infeasible member *)
+Example ex16_accepted :
+  exists c st0, accepted 2 ex16_ref ex16_set c st0 /\ i_min c = [0; 0] /\ i_max c = [4; 2].
+Proof.
+  destruct (ind_make 2 [] ex16_ref) as [[c st0]|] eqn:E; [|vm_compute in E; discriminate].
+  exists c, st0. split.
+  - constructor; [lia | exact E |].
+    assert (Ef : feasible ex16_ref ++ feasible ex16_set =
+                 [ISol 100 [0;2] 0; ISol 101 [4;0] 0; ISol 102 [2;1] 0; ISol 0 [1;1] 0; ISol 102 [2;1] 0; ISol 1 [5;-1#1] 0])
+      by (vm_compute; reflexivity).
+    rewrite Ef. split.
+    + intros s Hs. simpl in Hs. repeat (destruct Hs as [<-|Hs]; [reflexivity|]). contradiction.
+    + intros s s' Hs Hs' Es. simpl in Hs, Hs'.
+      repeat (destruct Hs as [<-|Hs]; [repeat (destruct Hs' as [<-|Hs']; [first [reflexivity | discriminate]|]); contradiction|]).
+      contradiction.
+  - vm_compute in E. injection E as Ec _. subst c. split; reflexivity.
+Qed.
+
+Example ex16_values :
+  xval_is (eps_indicator 2 [true; false] ex16_ref ex16_set) (-1 # 4) = true /\
+  terms_are (gd_indicator 2 ex16_ref ex16_set) [1#16; 0; 5#16] 3 = true /\
+  terms_are (igd_indicator 2 ex16_ref ex16_set) [5#16; 5#16; 0] 3 = true /\
+  (match spacing_calculate ex16_set with Ok q => Qeq_bool q (16 # 3) | _ => false end) = true /\
+  (* making the members worse (first objective is maximised) raises eps *)
+  xval_is (eps_indicator 2 [true; false] ex16_ref [ISol 0 [1#2;1] 0; ISol 102 [2;1] 0; ISol 1 [3;1#2] 0; ISol 2 [0;0] (1#2)]) (1 # 4) = true.
+Proof. repeat split; vm_compute; reflexivity. Qed.
+
+(* DESIGN.md section 7 #5 (fixes/9cf8f73.diff): with both objectives maximised the value is
+   1/2; the pre-repair code ignored the directions, i.e. computed the all-minimised value 0 *)
+Example ex16_directions_matter :
+  xval_is (eps_indicator 2 [true; true] [ISol 100 [0;1] 0; ISol 101 [1;0] 0] [ISol 0 [1#2;0] 0; ISol 1 [0;1#2] 0]) (1 # 2) = true /\
+  xval_is (eps_indicator 2 [false; false] [ISol 100 [0;1] 0; ISol 101 [1;0] 0] [ISol 0 [1#2;0] 0; ISol 1 [0;1#2] 0]) 0 = true.
+Proof. split; vm_compute; reflexivity. Qed.
+
+Lemma peq_sum_length l l' : peq l l' -> qsum l == qsum l' /\ length l = length l'.
+Proof. intro H. split; [exact (qsum_peq l l' H) | exact (length_peq l l' H)]. Qed.
+
+(* ---------- a history dependence the model predicts (outside the statement of C16) ----------
+   The reference set is normalised ONCE, in the constructor, onto the solution objects.  If,
+   between construction and calculate, any other call re-normalises one of those objects
+   with other bounds (constructing a second indicator whose reference set shares an object;
+   Hypervolume.calculate on a set containing reference objects, which also inverts them),
+   calculate reads the overwritten normalized_objectives: the value is no longer the textbook
+   value.  Witness: GD / IGD / eps of the same reference set and approximation set, computed
+   on a fresh store and after the construction of a second indicator that shares object 100. *)
+Definition hd_ref : list isol := [ISol 100 [0;1] 0; ISol 101 [1#2;1#4] 0; ISol 102 [1;0] 0].
+Definition hd_ref2 : list isol := [ISol 100 [0;1] 0; ISol 103 [-4#1;5] 0].
+Definition hd_set : list isol := [ISol 0 [1#4;3#4] 0; ISol 1 [3#4;1#2] 0].
+Definition after_second_constructor {A} (f : ind_state -> store -> res (A * store)) : res A :=
+  do c1 <- ind_make 2 [] hd_ref; do c2 <- ind_make 2 (snd c1) hd_ref2; do r <- f (fst c1) (snd c2); Ok (fst r).
+
+Example shared_reference_objects_refuted :
+  terms_are (gd_indicator 2 hd_ref hd_set) [1#8; 1#8] 2 = true /\
+  terms_are (after_second_constructor (fun c st => gd_calculate 2 c st hd_set)) [5#16; 1#8] 2 = true /\
+  terms_are (igd_indicator 2 hd_ref hd_set) [1#8; 1#8; 5#16] 3 = true /\
+  terms_are (after_second_constructor (fun c st => igd_calculate 2 c st hd_set)) [5#16; 1#8; 5#16] 3 = true.
+Proof. repeat split; vm_compute; reflexivity. Qed.
